@@ -6,6 +6,8 @@ import (
 	"fmt"
 	"os"
 
+	"verifharness/internal/ev"
+
 	"verifharness/gl/c10"
 	"verifharness/gl/c11"
 	"verifharness/gl/c14"
@@ -45,6 +47,11 @@ var cmds = map[string]func([]string) int{
 	"C18": c18.Main,
 	"C19": c19.Main,
 	"C20": c20.Main,
+}
+
+func init() {
+	c12.RoutingPart = func(r *ev.Run) int { return c05.Drive(r, nil, true) }
+	c04.ConformancePart = func(r *ev.Run) int { return c03.Drive(r, nil, true) }
 }
 
 func main() {
